@@ -123,6 +123,7 @@ type knownFindings struct {
 
 // match finds the finding whose key equals k, or whose key pattern (with '*' wildcards) matches k.
 func (k knownFindings) match(prop, key string) (string, bool) {
+	key = strings.ReplaceAll(key, " ", "_") // keys in known_findings.txt contain no spaces
 	if _, ok := k.findings[prop+"|"+key]; ok {
 		return key, true
 	}
